@@ -214,3 +214,77 @@ fn two_sequences<const S1: u8, const S2: u8>() {
 harness! { fn blk_two_sequences_rep2_rep2() { two_sequences::<0, 0>(); } }
 harness! { fn blk_two_sequences_rep2_rep3() { two_sequences::<0, 1>(); } }
 harness! { fn blk_two_sequences_rep3_unreachable() { two_sequences::<1, 0>(); } }
+
+// ------------------------------------------------------------------------------------------------ C10/C03: truncated block bodies
+// decode_block_content on a raw / RLE block whose body is cut after `avail` bytes (every avail below the body size):
+// always an error, and nothing is appended to the window (no invented bytes).
+fn truncated_body<const RLE: bool>() {
+    let body: [u8; 3] = nd::any();
+    let avail: usize = nd::any();
+    let need = if RLE { 1 } else { 3 };
+    nd::assume(avail < need);
+    let mut data = [0u8; MAXF + 4];
+    data[0] = body[0]; data[1] = body[1]; data[2] = body[2];
+    let mut src = ArrSrc { data, pos: 0, len: avail, chunk: usize::MAX, failed: false, prune: false };
+    let prior: [u8; 2] = nd::any();
+    let mut sc = DecoderScratch::new(16);
+    sc.buffer.push(&prior);
+    let mut d = new();
+    d.internal_state = DecoderState::ReadyToDecodeNextBody;
+    let hdr = BlockHeader { last_block: true, block_type: if RLE { BlockType::RLE } else { BlockType::Raw }, decompressed_size: 3, content_size: if RLE { 1 } else { 3 } };
+    let r = d.decode_block_content(&hdr, &mut sc, &mut src);
+    let failed = r.is_err();
+    core::mem::forget(r);
+    assert!(failed, "block with a truncated body decoded without an error");
+    assert!(sc.buffer.len() == 2, "bytes were appended to the window although the block body was truncated");
+    nd_cover!(avail == need - 1, "one byte short");
+    core::mem::forget(sc);
+}
+harness! { fn blk_truncated_rle_body() { truncated_body::<true>(); } }
+harness! { fn blk_truncated_raw_body() { truncated_body::<false>(); } }
+
+// two sequences, all RLE, NO extra bits anywhere (literal length code 1, match length code 0, offset code 0 = repeat
+// offset 1): the whole bit stream is the padding marker 0x01 and is exhausted before the second sequence
+harness! { fn blk_two_sequences_zero_bits() {
+    let prior: [u8; 2] = nd::any();
+    let a: u8 = nd::any(); let b: u8 = nd::any(); let c: u8 = nd::any();
+    let content = [(3u8 << 3) | 0, a, b, c, 0x02, (1 << 6) | (1 << 4) | (1 << 2), 1, 0, 0, 0x01];
+    let mut sc = DecoderScratch::new(1024);
+    let r = run_block(&content, 10, &prior, &mut sc);
+    let ok = r.is_ok(); core::mem::forget(r);
+    assert!(ok, "valid block whose sequences need no bits refused");
+    // model: [p q] a (copy 3 from offset 1) b (copy 3 from offset 1) c
+    let want = [prior[0], prior[1], a, a, a, a, b, b, b, b, c];
+    let mut out = [0u8; 24];
+    let got = drain_all(&mut sc, &mut out);
+    assert!(got == 11, "regenerated size");
+    let i: usize = nd::any(); nd::assume(i < 11);
+    assert!(out[i] == want[i], "zero-bit two-sequence block differs from the LZ77 model");
+    nd_cover!(true, "decoded");
+    core::mem::forget(sc);
+} }
+
+// table modes across blocks: block 1 sets all three tables by RLE, block 2 says Repeat for all three: the RLE symbols of
+// block 1 are what "the previous table" means
+harness! { fn blk_rle_then_repeat_mode() {
+    let a: u8 = nd::any(); let b: u8 = nd::any(); let c: u8 = nd::any(); let d: u8 = nd::any();
+    let mut sc = DecoderScratch::new(1024);
+    // block 1: literals [a,b], one sequence ll 1 (code 1), ml 3 (code 0), offset code 0 (repeat offset 1), bit stream 0x01
+    let c1 = [(2u8 << 3) | 0, a, b, 0x01, (1 << 6) | (1 << 4) | (1 << 2), 1, 0, 0, 0x01];
+    let r1 = run_block(&c1, 9, &[], &mut sc);
+    let ok1 = r1.is_ok(); core::mem::forget(r1);
+    assert!(ok1, "first block refused");
+    // block 2: literals [c,d], one sequence, modes Repeat/Repeat/Repeat (0xFC), no table bytes
+    let c2 = [(2u8 << 3) | 0, c, d, 0x01, 0xFC, 0x01];
+    let r2 = run_block(&c2, 6, &[], &mut sc);
+    let ok2 = r2.is_ok(); core::mem::forget(r2);
+    assert!(ok2, "block reusing RLE tables in Repeat mode refused");
+    let want = [a, a, a, a, b, c, c, c, c, d];
+    let mut out = [0u8; 24];
+    let got = drain_all(&mut sc, &mut out);
+    assert!(got == 10, "regenerated size");
+    let i: usize = nd::any(); nd::assume(i < 10);
+    assert!(out[i] == want[i], "Repeat-mode block after an RLE-mode block decoded wrongly");
+    nd_cover!(true, "decoded");
+    core::mem::forget(sc);
+} }
